@@ -111,6 +111,9 @@ theorem pc_stepOpen (c : Case) (s : St) (p : Pop) : PcExcept (popJob p) s (stepO
       · exact (PcExcept.trans (fun _ _ => rfl) (pc_setCap _ _ _)).weaken
   | cancel t f => intro i _; rfl
   | healall t k => intro i _; rfl
+  | setcap t v =>
+    simp only [stepOpen]
+    exact (PcExcept.trans (fun _ _ => rfl) (pc_setCap _ _ _)).weaken
   | job t j cont =>
     cases cont with
     | false =>
